@@ -96,6 +96,72 @@ def field_reread(code, length, F, how):
     sx.reach("reread")
 
 
+def remap_lookup():
+    """variables looked up through the node (node.tpdo[index] / node.tpdo['name']) are those of the *current* mapping:
+    after clear() + add_variable() has moved an object to another offset, the same lookups read and write the field
+    where it is now"""
+    node = _node()
+    m = node.tpdo[1]
+    a, b, c = C.TYPE_INDEX[0x05], C.TYPE_INDEX[0x06], C.TYPE_INDEX[0x03]      # U8, U16, I16
+    names = {i: node.object_dictionary[i].name for i in (a, b, c)}
+    m.clear()
+    for i in (a, b, c):
+        m.add_variable(i)
+    for i in (a, b, c):                    # first look-ups, by index and by name
+        node.tpdo[i]
+        node.tpdo[names[i]]
+    m.clear()
+    for i in (c, a, b):                    # the same objects in another order: I16 @0, U8 @16, U16 @24
+        m.add_variable(i)
+    frame = sx.fresh_bytes("frame", 5)
+    m.data = _ba(frame) if sx.symbolic() else sx.mod("builtins").bytearray(frame)
+    fi = _frame_int(sx.items(frame))
+    tag = "C05/remap-lookup"
+    exp_c = (fi & 0xFFFF) - (((fi >> 15) & 1) << 16)
+    for key_c, key_a, key_b in ((c, a, b), (names[c], names[a], names[b])):
+        sx.prove(node.tpdo[key_c].raw == exp_c, "INTEGER16 now at bit 0", tag + "/read")
+        sx.prove(node.tpdo[key_a].raw == ((fi >> 16) & 0xFF), "UNSIGNED8 now at bit 16", tag + "/read")
+        sx.prove(node.tpdo[key_b].raw == ((fi >> 24) & 0xFFFF), "UNSIGNED16 now at bit 24", tag + "/read")
+    v = sx.fresh_int("v", 0, 255)
+    node.tpdo[names[a]].raw = v
+    new = _frame_int(sx.items(m.data))
+    sx.prove(len(sx.items(m.data)) == 5, "frame length unchanged", tag + "/frame-length")
+    sx.prove(new == ((fi & ~(0xFF << 16)) | (v << 16)), "a write through the node-level lookup changes exactly the "
+             "variable's present field", tag + "/write")
+    sx.reach("remap-lookup")
+
+
+def field_read_concurrent(code, length, F):
+    """a frame is received (second thread) while the application reads a mapped variable: every schedule at lock
+    granularity plus one preemption at any source line of canopen code.  The value read is the bit field of the frame
+    held before or of the frame received - never a mixture of the two."""
+    name, signed = _field_cfg(code, length)
+    node = _node()
+    m = node.tpdo[1]
+    m.clear()
+    var = m.add_variable(C.TYPE_INDEX[code], 0, length)
+    off = sx.fresh_int("off", 0, 8 * F - length)
+    var.offset = off
+    m.cob_id = 0x181
+    f1, f2 = sx.fresh_bytes("f1", F), sx.fresh_bytes("f2", F)
+    m.data = _ba(f1) if sx.symbolic() else sx.mod("builtins").bytearray(f1)
+
+    def field(frame):
+        v = (_frame_int(sx.items(frame)) >> off) & ((1 << length) - 1)
+        if signed:
+            v = v - (((v >> (length - 1)) & 1) << length)
+        return v
+    sched = sx.scheduler(preempt=1)
+    sched.spawn(lambda: m.on_message(0x181, sx.new_bytearray(sx.items(f2)), 5), "receiver")
+    got = var.raw
+    sched.join()
+    sx.observe("got", got)
+    sx.prove((got == field(f1)) | (got == field(f2)), "value read while a frame arrives is the field of neither frame",
+             "C05/concurrent/%s/len%d/torn" % (name, length))
+    sx.prove(var.raw == field(f2), "after the reception the new frame is read", "C05/concurrent/%s/len%d/after" % (name, length))
+    sx.reach("concurrent-read")
+
+
 def _ba(frame):
     from symx.symbytes import SymByteArray
     return SymByteArray(sx.items(frame))
@@ -362,6 +428,9 @@ def _configs():
 
 def jobs(tier):
     out = []
+    out.append(dict(func="remap_lookup", params={}))
+    for code, length in ((0x03, 16), (0x02, 3), (0x07, 32)):
+        out.append(dict(func="field_read_concurrent", params=dict(code=code, length=length, F=4 if length < 32 else 8), weight=300))
     for code, length in ((0x06, 16), (0x02, 3), (0x07, 32), (0x03, 16)):
         for how in ("receive", "assign"):
             out.append(dict(func="field_reread", params=dict(code=code, length=length, F=8, how=how), weight=5))
@@ -418,7 +487,7 @@ META = dict(
     assumptions=["offset/length attributes set directly on the PdoVariable for the field harness (the layout "
                  "harness proves add_variable computes them as the running sum)"],
     stubs=["struct", "bytes", "bytearray", "math.ceil on exact rationals", "logging -> null"],
-    required_reach=["reread", "read", "write", "layout", "own-length", "layout-step", "layout-concrete", "layout-mixed", "layout-reread"],
+    required_reach=["reread", "remap-lookup", "concurrent-read", "read", "write", "layout", "own-length", "layout-step", "layout-concrete", "layout-mixed", "layout-reread"],
     limits=dict(quick=dict(query_timeout_ms=60000), thorough=dict(query_timeout_ms=300000, crosscheck_every=5, crosscheck_max=30)),
     validate_every=dict(quick=3, thorough=1),
 )
